@@ -1,13 +1,13 @@
 CONSTANTS
-  Nets <- MCNetsLoop
-  Durations <- MCDurSmall
-  Configs <- MCCfgDefault
+  Nets <- MCNetsMin
+  Durations <- MCDurRelQ
+  Configs <- MCCfgQuick
   CheckPeriod = 5
   SendsPerSec = 15
   Slack = 1
   D = 0
 INIT Init
-NEXT Next
+NEXT NextCfgs
 VIEW viewE
 INVARIANT TypeOK
 INVARIANT WithdrawnOnDisconnect
